@@ -196,7 +196,10 @@ fn main() {
     }
 
     let mut jobs: Vec<Job> = vec![];
-    let tys = scrutinee_types();
+    let mut tys = scrutinee_types();
+    if d46_ok {
+        tys.extend(scrutinee_types_d46());
+    }
     let n_cases = if quick { 420 } else { 9000 };
     let max_vals = if quick { 5 } else { 24 };
     let mut tries = 0;
